@@ -69,4 +69,55 @@ example : Generated.Code.atomsLoadSite none false ("a/b", ".cml") = some "cls.lo
 example : Generated.Code.atomsSaveSite none false ("a/b", ".cml") = none := by decide
 example : Generated.Code.atomsSaveSite (some "cif") true ("", "") = some "self.save_p1_cif" := by decide
 
+/-! ### lines of `load_lmpdat` (fourth batch; repairs ad79a2b, 375e8ae) -/
+
+/-- `masses.sort(key=lambda m: m[0])`: the stable insertion by the integer type id of the model -/
+theorem insertByKey_eq {β} (x : Int × β) (l : List (Int × β)) :
+    Py.insertByKey (fun m : Int × β => m.1) x l = Lmp.insertById x l := by
+  induction l with
+  | nil => rfl
+  | cons y ys ih => simp only [Py.insertByKey, Lmp.insertById, ih]
+
+/-- for ALL Masses entries: the translated sort is the model's `sortById` (ascending type id, equal ids keep their order) -/
+theorem lmpSortMasses_eq (l : List (Int × String × Option String)) :
+    Generated.Code.lmpSortMasses l = Lmp.sortById l := by
+  unfold Generated.Code.lmpSortMasses Py.sortByKey Lmp.sortById
+  induction l with
+  | nil => rfl
+  | cons x xs ih => simp only [List.foldr_cons] at ih ⊢; rw [ih, insertByKey_eq]
+
+/-- `"#" in unprocessed_line` -/
+theorem lmpHasComment_eq (s : String) : Generated.Code.lmpHasComment s = Lmp.hasHash s := by
+  unfold Generated.Code.lmpHasComment Lmp.hasHash
+  induction s.toList with
+  | nil => rfl
+  | cons c cs ih =>
+    simp only [List.contains_cons, List.any_cons, ih]
+    rw [Bool.beq_comm]
+
+theorem splitAtFirst_eq (l : List Char) : Py.splitAtFirst '#' l = Lmp.splitHash l := by
+  induction l with
+  | nil => rfl
+  | cons c cs ih => simp only [Py.splitAtFirst, Lmp.splitHash, ih]
+
+/-- `line, comment = unprocessed_line.split('#', 1)`: the data part is the text before the FIRST `#` … -/
+theorem lmpLineBeforeComment_eq (s : String) :
+    Generated.Code.lmpLineBeforeComment s =
+      (Lmp.splitHash s.toList).2.map (fun _ => String.ofList (Lmp.splitHash s.toList).1) := by
+  unfold Generated.Code.lmpLineBeforeComment Py.strSplit1?
+  rw [splitAtFirst_eq]
+  rcases h : Lmp.splitHash s.toList with ⟨a, _ | b⟩ <;> simp [h]
+
+/-- … and the comment is everything after it, further `#` included (the model's `splitHash`) -/
+theorem lmpCommentOf_eq (s : String) :
+    Generated.Code.lmpCommentOf s = (Lmp.splitHash s.toList).2.map String.ofList := by
+  unfold Generated.Code.lmpCommentOf Py.strSplit1?
+  rw [splitAtFirst_eq]
+  rcases h : Lmp.splitHash s.toList with ⟨a, _ | b⟩ <;> simp [h]
+
+
+example : Generated.Code.lmpCommentOf "1 12.011 # C_R # aromatic" = some " C_R # aromatic" := by decide
+example : Generated.Code.lmpSortMasses [(2, "1.008", none), (1, "12.011", some "C")] = [(1, "12.011", some "C"), (2, "1.008", none)] := by
+  decide
+
 end Mofun.C13Code
